@@ -18,5 +18,6 @@ MC_TmplSeq  == <<"A", "B">>
 MC_InitFits == <<{"A", "B"}, {"A", "B"}, {"A", "B"}>>
 MC_Strat    == BaseStrat
 MC_Strat2   == [BaseStrat EXCEPT !.maxUnavailable = IP(2, FALSE), !.slowStartIncrease = IP(1, FALSE)]
+MC_OldDS == "old"     \* migration configurations: OldDS <- MC_OldDS
 MC_StratPct == [BaseStrat EXCEPT !.maxUnavailable = IP(50, TRUE), !.slowStartIncrease = IP(34, TRUE)]
 =============================================================================
